@@ -28,14 +28,15 @@ NoKey        == Key("none", "none")
 (* Ideal signatures.  A signature is the triple (signer, message, form).   *)
 (* `form` models the two byte encodings (r,s) / (r,n-s) of an ECDSA        *)
 (* signature: both verify.  For ed25519 strict verification only form 0    *)
-(* (canonical S) verifies.                                                 *)
+(* (canonical S) verifies.  Forms 2 and 3 are the signature bytes with one *)
+(* byte appended / removed: a signature of the wrong length never verifies.*)
 (***************************************************************************)
 Sig(k, m) == [signer |-> k, msg |-> m, form |-> 0]
 
 VerifySig(pk, m, s) ==
     /\ s.signer = pk
     /\ s.msg = m
-    /\ (s.form = 0 \/ pk.alg = "p256")
+    /\ (s.form = 0 \/ (s.form = 1 /\ pk.alg = "p256"))
 
 (***************************************************************************)
 (* Signed messages.  One record shape for every layout (TLC cannot compare *)
